@@ -780,6 +780,8 @@ func main() {
 		"each case = one scenario (2-3 writers x 1-2 calls from {Add, Add with a generated id, upsert, Update with expected value/check, delta interceptor, Delete with precondition, Value.Set}, each with or without an update mask on one of the two message fields and a write time, on 1-2 ids + a Value, under a ticking / frozen / coarse injected clock and a scripted id generator) executed on the real code under one schedule forced through the yield points gau.afterRead / gau.beforeLock / coll.delete.afterRead; per-call results (with generated ids), final contents, the change time stored with every value and the number of rng reads compared with run(model) on the same schedule; non-trivial = at least two calls overlapped; distinct = distinct (scenario, schedule)")
 	ntie := res.Tie("nested-rivals", "K4",
 		"no hooks, no goroutines: each case = one call whose own callback (WithExpectedCheck / InterceptBefore, run by the write path with no lock held) makes 1-5 complete rival calls, i.e. between the call's optimistic read and its write lock; frozen clock; compared with run(model) on the schedule read ▸ rival to completion ▸ next step (one model thread per call that ran); non-trivial = a rival ran; distinct = distinct scenario")
+	ctie := res.Tie("linearization-certificate", "K4",
+		"the sequence the theorem C02_linearizable speaks about (printed by the model for the same scenario and schedule: refused calls by linearization index, then the owner of each commit-log entry) is checked against the REAL execution with the harness' own sequential specification: it must contain exactly the calls that did not lose a race, reproduce every real result and the real final contents when executed one call at a time, and respect the real-time order of the real calls (step indices of invocation and response); non-trivial = at least two calls overlapped")
 	mon := res.Monitor("linearizable-hooked",
 		"the property on every hooked and every nested execution: independent Go map specification + backtracking linearizability checker (real-time order from step indices), plus add-exclusive (given and generated ids), no-lost-increment per field, no spurious Aborted")
 	t0 := time.Now()
@@ -892,7 +894,7 @@ func main() {
 		} else {
 			for i, c := range cases {
 				n := len(c.run.Progs)
-				model := answers[i]
+				model, lin := splitLin(answers[i])
 				// the model must also say every thread is finished after exactly these steps
 				wantPc := "|pc=" + strings.Repeat("i", n)
 				code := c.run.canon() + fmt.Sprintf("|log=%d", countCommits(c.run.Hist)) + wantPc + fmt.Sprintf("|rng=%d", c.run.RNG)
@@ -904,6 +906,10 @@ func main() {
 					nontrivial = len(c.run.Progs) > 1
 				}
 				tt.Record(lines[i], nontrivial, in, model, code)
+				if !c.run.Stuck {
+					why := certify(c.sc, c.run, lin)
+					ctie.Record(lines[i], nontrivial, in, "lin="+strings.Join(lin, ",")+" valid", "lin="+strings.Join(lin, ",")+" "+why)
+				}
 				for _, h := range c.run.Hist {
 					tt.Count(h.Op.K + ":" + h.Res[:strings.IndexByte(h.Res, ':')+1] + codeOf(h.Res))
 					tt.Count(h.Op.optionClass())
@@ -937,6 +943,58 @@ func main() {
 	if err := res.Write(f.Out); err != nil {
 		lib.Fatal(err)
 	}
+}
+
+// splitLin separates the model's linearization sequence from the rest of its answer.
+func splitLin(answer string) (string, []string) {
+	i := strings.LastIndex(answer, "|lin=")
+	if i < 0 {
+		return answer, nil
+	}
+	if answer[i+5:] == "" {
+		return answer[:i], nil
+	}
+	return answer[:i], strings.Split(answer[i+5:], ",")
+}
+
+// certify checks the model's linearization against the real execution; "valid" or the reason it is not.
+func certify(sc Scenario, r *Run, lin []string) string {
+	calls := map[string]HOp{}
+	want := 0
+	for _, h := range r.Hist {
+		calls[fmt.Sprintf("%d.%d", h.T, h.N)] = h
+		if !lostRace(h.Res) {
+			want++
+		}
+	}
+	if len(lin) != want {
+		return fmt.Sprintf("INVALID: %d calls did not lose a race, the sequence has %d", want, len(lin))
+	}
+	st := sc.initMap()
+	seen := map[string]bool{}
+	var seq []HOp
+	for _, key := range lin {
+		h, ok := calls[key]
+		if !ok || seen[key] || lostRace(h.Res) {
+			return "INVALID: " + key + " is not a call that took part exactly once"
+		}
+		seen[key] = true
+		if got := specApply(st, h.Op, h.GenID); got != h.Res {
+			return fmt.Sprintf("INVALID: at %s the specification reports %s, the call reported %s", key, got, h.Res)
+		}
+		seq = append(seq, h)
+	}
+	if showContents(st) != showContents(r.Final) {
+		return "INVALID: ends in " + showContents(st) + ", the real contents are " + showContents(r.Final)
+	}
+	for i := range seq {
+		for j := i + 1; j < len(seq); j++ {
+			if seq[j].Resp < seq[i].Inv {
+				return fmt.Sprintf("INVALID: T%d.%d responded before T%d.%d was invoked but comes later", seq[j].T, seq[j].N, seq[i].T, seq[i].N)
+			}
+		}
+	}
+	return "valid"
 }
 
 // input is the concrete replay of one execution.
